@@ -30,6 +30,7 @@ def _work(args):
         from vsym.ctx import CTX
         from vsym import patcher
         CTX.__init__()
+        CTX.deadline = time.time() + float(job.get("budget_s") or os.environ.get("VERIF_JOB_BUDGET_S") or 1500)
         patcher.reset_caches()
         undo = None
         if job.get("canary"):
